@@ -73,6 +73,7 @@ type Report struct {
 	Assumptions []string
 	Exhaustive  bool
 	Caps        []string
+	vacuous     string
 	viol        map[string]*Violation
 	order       []string
 	distinct    map[string]struct{}
@@ -131,6 +132,17 @@ func (r *Report) Violate(key, desc string, replay any) {
 	r.order = append(r.order, key)
 }
 
+// Vacuous records that a coverage guard failed (a counter that must be non-zero is zero). Finish turns it
+// into a harness error (exit 2) unless the run found a violation: a defect that makes the exercised path
+// unreachable must be reported as the violation it is, not as a broken check.
+func (r *Report) Vacuous(format string, a ...any) {
+	r.mu.Lock()
+	if r.vacuous == "" {
+		r.vacuous = fmt.Sprintf(format, a...)
+	}
+	r.mu.Unlock()
+}
+
 func (r *Report) NumViolations() int { r.mu.Lock(); defer r.mu.Unlock(); return len(r.viol) }
 
 type finding struct {
@@ -184,6 +196,13 @@ func (r *Report) Finish() {
 		} else {
 			newViol = append(newViol, v)
 		}
+	}
+	if r.vacuous != "" {
+		if len(newViol) == 0 {
+			HarnessError("%s", r.vacuous)
+		}
+		r.Exhaustive = false
+		r.Caps = append(r.Caps, "coverage guard not met in a run that found violations: "+r.vacuous)
 	}
 	if int64(len(r.distinct)) > r.Distinct {
 		r.Distinct = int64(len(r.distinct))
